@@ -13,6 +13,7 @@ the abstract classes of the characters of the shrunk text.
 
 from __future__ import annotations
 
+import bisect
 import itertools
 import os
 import time
@@ -29,13 +30,13 @@ BUDGET = {"quick": 25.0, "thorough": 400.0}
 EXHAUSTIVE = {"quick": False, "thorough": False}  # exhaustive over code points only, not over the statement's strings
 CP_STRIDE = {"quick": 8, "thorough": 1}
 DET_FRAC = 0.90  # the enumerated phases may use up to this fraction of the budget IN CPU SECONDS (the machine is shared: wall
-# time under contention says nothing about the work done); being cut => INCONCLUSIVE.  Wall-clock safety net: 4 x budget + 60 s
+# time under contention says nothing about the work done); being cut => INCONCLUSIVE.  Wall-clock safety net: 4 x budget + 85 s
 # (core kills a shard at 4 x budget + 120 s).
-MIN_RANDOM_ROUNDS = {"quick": 50, "thorough": 150}  # x40 random texts each, done even if the wall budget is already used up
+MIN_RANDOM_ROUNDS = {"quick": 25, "thorough": 150}  # x40 random texts each, done even if the wall budget is already used up
 
 
 def det_more(ctx, frac=DET_FRAC) -> bool:
-    return time.process_time() < frac * ctx.budget and ctx.elapsed() < 4.0 * ctx.budget + 60
+    return time.process_time() < frac * ctx.budget and ctx.elapsed() < 4.0 * ctx.budget + 85
 
 
 REQUIRE = {
@@ -69,6 +70,38 @@ REQUIRE = {
         "eval:apply_target_encoding:dec-glyph": 5_000,
         "eval:apply_target_encoding:bytes-shift": 300,
         "eval:str-bytes-agree": 80_000,
+        "long_inputs:len=1000": 55,
+        "long_inputs:len=300": 55,
+        "long_inputs:len=500": 55,
+        "long_inputs:len=5000": 22,
+        "long_inputs:narrow:ascii": 3,
+        "long_inputs:narrow:dec-glyphs": 3,
+        "long_inputs:narrow:high": 3,
+        "long_inputs:narrow:mixture": 3,
+        "long_inputs:narrow:wide": 3,
+        "long_inputs:utf8:ascii": 3,
+        "long_inputs:utf8:astral-wide": 3,
+        "long_inputs:utf8:combining-pairs": 3,
+        "long_inputs:utf8:combining-run": 3,
+        "long_inputs:utf8:control-run": 3,
+        "long_inputs:utf8:dec-glyphs": 3,
+        "long_inputs:utf8:latin1": 3,
+        "long_inputs:utf8:mixture": 3,
+        "long_inputs:utf8:stray-continuation-run": 3,
+        "long_inputs:utf8:truncated-lead-run": 3,
+        "long_inputs:utf8:wide": 3,
+        "long_inputs:utf8:wide-then-narrow": 3,
+        "long_inputs:utf8:zero-width-run": 3,
+        "long_inputs:wide:ascii": 6,
+        "long_inputs:wide:dbl-hi": 6,
+        "long_inputs:wide:dbl-hi-after-ascii": 6,
+        "long_inputs:wide:dbl-hi-trail-0x80": 6,
+        "long_inputs:wide:dbl-lo": 6,
+        "long_inputs:wide:dec-glyphs": 6,
+        "long_inputs:wide:lowtrail-ascii": 6,
+        "long_inputs:wide:mixture": 6,
+        "long_inputs:wide:two-runs": 6,
+        "long_inputs:wide:wide": 6,
         "enc-history:transitions:set->set": 841,
         "enc-history:transitions:temporary-block": 841,
         "enc-history:transitions:raw-mode-then-reselect": 87,
@@ -110,6 +143,38 @@ REQUIRE = {
         "eval:apply_target_encoding:dec-glyph": 20_000,
         "eval:apply_target_encoding:bytes-shift": 300,
         "eval:str-bytes-agree": 1_000_000,
+        "long_inputs:len=1000": 55,
+        "long_inputs:len=300": 55,
+        "long_inputs:len=500": 55,
+        "long_inputs:len=5000": 22,
+        "long_inputs:narrow:ascii": 3,
+        "long_inputs:narrow:dec-glyphs": 3,
+        "long_inputs:narrow:high": 3,
+        "long_inputs:narrow:mixture": 3,
+        "long_inputs:narrow:wide": 3,
+        "long_inputs:utf8:ascii": 3,
+        "long_inputs:utf8:astral-wide": 3,
+        "long_inputs:utf8:combining-pairs": 3,
+        "long_inputs:utf8:combining-run": 3,
+        "long_inputs:utf8:control-run": 3,
+        "long_inputs:utf8:dec-glyphs": 3,
+        "long_inputs:utf8:latin1": 3,
+        "long_inputs:utf8:mixture": 3,
+        "long_inputs:utf8:stray-continuation-run": 3,
+        "long_inputs:utf8:truncated-lead-run": 3,
+        "long_inputs:utf8:wide": 3,
+        "long_inputs:utf8:wide-then-narrow": 3,
+        "long_inputs:utf8:zero-width-run": 3,
+        "long_inputs:wide:ascii": 6,
+        "long_inputs:wide:dbl-hi": 6,
+        "long_inputs:wide:dbl-hi-after-ascii": 6,
+        "long_inputs:wide:dbl-hi-trail-0x80": 6,
+        "long_inputs:wide:dbl-lo": 6,
+        "long_inputs:wide:dec-glyphs": 6,
+        "long_inputs:wide:lowtrail-ascii": 6,
+        "long_inputs:wide:mixture": 6,
+        "long_inputs:wide:two-runs": 6,
+        "long_inputs:wide:wide": 6,
         "enc-history:transitions:set->set": 841,
         "enc-history:transitions:temporary-block": 841,
         "enc-history:transitions:raw-mode-then-reselect": 87,
@@ -871,6 +936,282 @@ def dec_texts():
             yield g1 + g2
 
 
+# ------------------------------------------------------------------ long inputs
+# The short-text phases ask every question about <= 7 characters.  Here the same questions are asked of texts of
+# 300 / 500 / 1000 / 5000 characters per class, at both ends and in the middle (the model is linear, so this is cheap).
+# Any exception is a violation: none of the functions documents one for in-range boundary arguments.
+
+LONG_LENGTHS = {"quick": (300, 500, 1000), "thorough": (300, 500, 1000, 5000)}
+LONG_LENGTHS_BIG = 5000  # quick: only for the classes in LONG_BIG_CLASSES
+LONG_BIG_CLASSES = {"dbl-hi", "dbl-lo", "wide", "combining-run", "mixture"}
+
+
+def long_texts(mode: str, enc: str, n: int):
+    """(class, text) pairs of about n characters for one encoding"""
+    if mode == "utf8":
+        strs = {
+            "ascii": "a" * n,
+            "latin1": "\u00e9" * n,
+            "wide": "\u6f22" * n,
+            "astral-wide": "\U0001f600" * n,
+            "combining-run": "a" + "\u0301" * (n - 1),  # one base, n-1 combining marks
+            "combining-pairs": "a\u0301" * (n // 2),
+            "zero-width-run": "\u200b" * n,
+            "control-run": "\x01" * n,
+            "dec-glyphs": "\u2500\u2502" * (n // 2),
+            "mixture": "".join(STR_UNITS[k % len(STR_UNITS)] for k in range(n)),
+            "wide-then-narrow": "\u6f22" * (n // 2) + "a" * (n // 2),
+        }
+        for cls, t in strs.items():
+            yield cls, t
+            yield cls, t.encode("utf-8")
+        yield "stray-continuation-run", b"\x80" * n
+        yield "truncated-lead-run", b"\xe3\x81" * (n // 2)
+    elif mode == "wide":
+        yield "dbl-hi", b"\xa4\xa2" * n
+        yield "dbl-lo", b"\x81\x40" * n
+        yield "dbl-hi-after-ascii", b"a" + b"\xa4\xa2" * (n - 1)  # odd offset of the run
+        yield "dbl-hi-trail-0x80", b"\x81\x80" * n
+        yield "mixture", (b"\xa4\xa2a\x81\x40 ") * (n // 4)
+        yield "two-runs", b"\xa4\xa2" * (n // 2) + b" " + b"\xfe\xfe" * (n // 2)
+        yield "ascii", b"a" * n
+        yield "lowtrail-ascii", b"@~" * (n // 2)
+        codec = codec_of(enc)
+        for cls, t in (("wide", "\u6f22" * n), ("mixture", "a\u6f22\u3042 " * (n // 4)), ("dec-glyphs", "\u2500a" * (n // 2))):
+            yield cls, t
+            if all(cp_in_alphabet(ord(c), enc, mode) is not None for c in set(t)):
+                yield cls, t.encode(codec)
+    else:
+        yield "high", b"\xe9" * n
+        yield "ascii", b"a" * n
+        yield "mixture", b"a\xe9 \xff" * (n // 4)
+        yield "wide", "\u6f22" * n
+        yield "dec-glyphs", "\u2500a" * (n // 2)
+
+
+def judge_long(api: Api, enc: str, mode: str, text, stats: Counter):
+    """the judge_text clauses at a fixed number of query points of a long text; returns [(func, kind, msg, call)]"""
+    S, U = api.S, api.U
+    out = []
+    cl = mcells(text, mode, api.lenient)
+    n = len(cl)
+    isb = isinstance(text, bytes)
+    B = [0]
+    C = [0]
+    for ch, w, _c in cl:
+        B.append(B[-1] + len(ch))
+        C.append(C[-1] + w)
+    Bidx = {b: k for k, b in enumerate(B)}
+    Cset = set(C)
+    tlen = len(text)
+    head = f"{'bytes' if isb else 'str'} of {n} characters"
+
+    def bad(func, kind, msg, *call):
+        out.append((func, kind, f"{func} on {head}: {msg}", [func, *call]))
+
+    def call(func, f, *a):
+        CALLS[func] += 1
+        stats[f"eval:{func}"] += 1
+        try:
+            return True, f(text, *a)
+        except Exception as e:  # noqa: BLE001
+            bad(func, f"raise:{type(e).__name__}", f"{func}(<text>, {', '.join(map(str, a))}) raised {type(e).__name__}: {str(e)[:80]}", *a)
+            return False, None
+
+    pts = sorted({k for k in (0, 1, 2, n // 3, n // 2 - 1, n // 2, n // 2 + 1, n - 3, n - 2, n - 1, n) if 0 <= k <= n})
+    pairs = [(0, n), (0, n // 2), (n // 2, n), (1, n - 1), (n - 2, n), (0, 2), (n // 3, n - 1)]
+    pairs = [(i, j) for i, j in pairs if 0 <= i <= j <= n]
+
+    for i, j in pairs:
+        ok, got = call("calc_width", S.calc_width, B[i], B[j])
+        if ok and got != C[j] - C[i]:
+            bad("calc_width", "wider-than-model" if isinstance(got, int) and got > C[j] - C[i] else "narrower-than-model", f"({B[i]},{B[j]}) = {got!r}, model {C[j] - C[i]}", B[i], B[j], got, C[j] - C[i])
+        line = C[j] - C[i]
+        for col in sorted({c for c in (0, 1, 2, line // 2 - 1, line // 2, line // 2 + 1, line - 2, line - 1, line, line + 1) if c >= 0}):
+            k = bisect.bisect_right(C, C[i] + col, i, j + 1) - 1
+            exp = (B[k], C[k] - C[i])
+            ok, got = call("calc_text_pos", S.calc_text_pos, B[i], B[j], col)
+            if ok and got != exp:
+                if not (isinstance(got, tuple) and len(got) == 2 and all(isinstance(x, int) for x in got)):
+                    kind = "not-a-pair"
+                elif not B[i] <= got[0] <= B[j]:
+                    kind = "pos-out-of-range"
+                elif got[0] not in Bidx:
+                    kind = "pos-inside-char"
+                elif got[1] > col:
+                    kind = "col-beyond-target"
+                elif got[1] != C[Bidx[got[0]]] - C[i]:
+                    kind = "col-not-width-of-prefix"
+                else:
+                    kind = "stops-early" if got[0] < exp[0] else "overshoots"
+                bad("calc_text_pos", kind, f"({B[i]},{B[j]},{col}) = {got!r}, model {exp}", B[i], B[j], col, got, exp)
+
+    for k in pts:
+        if k < n:
+            for end in sorted({n, min(n, k + 2)}):
+                ok, p = call("move_next_char", S.move_next_char, B[k], B[end])
+                if ok and p != B[k + 1]:
+                    kind = "not-int" if not isinstance(p, int) else "beyond-end" if p > B[end] else "not-advancing" if p <= B[k] else "inside-char" if p not in Bidx else "skips-char"
+                    bad("move_next_char", kind, f"({B[k]},{B[end]}) = {p!r}, model {B[k + 1]}", B[k], B[end], p, B[k + 1])
+                if ok and isinstance(p, int) and B[k] < p <= B[end]:
+                    ok2, q = call("move_prev_char", S.move_prev_char, 0, p)
+                    stats["eval:next-prev-inverse"] += 1
+                    if ok2 and q != B[k]:
+                        bad("next-prev-inverse", "prev(next(s))!=s", f"next({B[k]},{B[end]}) = {p}, prev(0,{p}) = {q!r}", B[k], B[end], p, q)
+            ok, got = call("is_wide_char", S.is_wide_char, B[k])
+            if ok and got != (cl[k][1] == 2):
+                bad("is_wide_char", "true-on-narrow" if got else "false-on-wide", f"({B[k]}) = {got!r}, model width {cl[k][1]}", B[k], got)
+        if k > 0:
+            for start in sorted({0, max(0, k - 2)}):
+                ok, q = call("move_prev_char", S.move_prev_char, B[start], B[k])
+                if ok and q != B[k - 1]:
+                    kind = "not-int" if not isinstance(q, int) else "before-start" if q < B[start] else "not-retreating" if q >= B[k] else "inside-char" if q not in Bidx else "skips-char"
+                    bad("move_prev_char", kind, f"({B[start]},{B[k]}) = {q!r}, model {B[k - 1]}", B[start], B[k], q, B[k - 1])
+
+    if isb and mode == "wide":
+        role = bytearray()
+        for ch, w, _c in cl:
+            role += b"\x01\x02" if w == 2 else b"\x00"
+        for pos in sorted({p for k in pts if k < n for p in (B[k], B[k + 1] - 1)}):
+            for ls in (0, B[n // 2]):
+                if ls <= pos:
+                    ok, got = call("within_double_byte", S.within_double_byte, ls, pos)
+                    if ok and got != role[pos]:
+                        bad("within_double_byte", f"got{got!r}-model{role[pos]}", f"({ls},{pos}) = {got!r}, model {role[pos]}", ls, pos, got)
+    if isb and mode == "utf8":
+        for k in pts:
+            if k >= n:
+                continue
+            ch, _w, cls = cl[k]
+            ok, got = call("decode_one", S.decode_one, B[k])
+            if ok and not (isinstance(got, tuple) and len(got) == 2 and got[1] == B[k + 1] and (cls in MALFORMED or got[0] == ord(ch.decode("utf-8")))):
+                bad("decode_one", "mismatch", f"({B[k]}) = {got!r}, model next {B[k + 1]}", B[k], got)
+            if cls not in MALFORMED:
+                ok, got = call("decode_one_right", S.decode_one_right, B[k + 1] - 1)
+                exp = (ord(ch.decode("utf-8")), B[k] - 1)
+                if ok and got != exp:
+                    bad("decode_one_right", "mismatch", f"({B[k + 1] - 1}) = {got!r}, model {exp}", B[k + 1] - 1, got, exp)
+
+    line = C[n]
+    cols = sorted({c for c in (0, 1, 2, 3, line // 2 - 1, line // 2, line // 2 + 1, line - 3, line - 2, line - 1, line) if 0 <= c <= line})
+    for sc in cols:
+        for ec in cols:
+            if ec < sc or (sc == ec and sc not in Cset):
+                continue
+            epl, epr = int(sc not in Cset), int(ec not in Cset)
+            ok, got = call("calc_trim_text", U.calc_trim_text, 0, tlen, sc, ec)
+            if not ok:
+                continue
+            if epl or epr:
+                stats["eval:calc_trim_text:pad_both" if epl and epr else "eval:calc_trim_text:pad_left" if epl else "eval:calc_trim_text:pad_right"] += 1
+            kind = None
+            if not (isinstance(got, tuple) and len(got) == 4 and all(isinstance(x, int) for x in got)):
+                kind = "not-a-4-tuple"
+            else:
+                s_, e_, pl, pr = got
+                if not (0 <= s_ <= e_ <= tlen):
+                    kind = "slice-out-of-range"
+                elif s_ not in Bidx or e_ not in Bidx:
+                    kind = "slice-inside-char"
+                elif pl != epl:
+                    kind = "pad_left-spurious" if pl else "pad_left-missing"
+                elif pr != epr:
+                    kind = "pad_right-spurious" if pr else "pad_right-missing"
+                elif (C[Bidx[e_]] - C[Bidx[s_]]) + pl + pr != ec - sc:
+                    kind = "total-width"
+                elif C[Bidx[s_]] != sc + pl or C[Bidx[e_]] != ec - pr:
+                    kind = "slice-misplaced"
+            if kind:
+                bad("calc_trim_text", kind, f"(0,{tlen},{sc},{ec}) = {got!r}; model pads ({epl},{epr}), line width {line}", 0, tlen, sc, ec, got)
+    if isb:
+        attr = [(k & 7, len(cl[k][0])) for k in range(n)]
+        for sc, ec in ((1, line - 1), (line // 2, line // 2 + 3), (0, line)):
+            if not 0 <= sc <= ec <= line or (sc == ec and sc not in Cset):
+                continue
+            CALLS["trim_text_attr_cs"] += 1
+            stats["eval:trim_text_attr_cs"] += 1
+            try:
+                t2, a2, c2 = U.trim_text_attr_cs(text, attr, [(None, tlen)], sc, ec)
+                la, lc = sum(r for _a, r in a2), sum(r for _a, r in c2)
+            except Exception as e:  # noqa: BLE001
+                bad("trim_text_attr_cs", f"raise:{type(e).__name__}", f"(.., {sc}, {ec}) raised {type(e).__name__}: {str(e)[:80]}", sc, ec)
+                continue
+            if W.bytes_width(t2, mode) != ec - sc and not any(c in MALFORMED for _ch, _w, c in cl):
+                bad("trim_text_attr_cs", "text-width", f"(.., {sc}, {ec}) text of width {W.bytes_width(t2, mode)}, range {ec - sc}", sc, ec)
+            elif la != len(t2) or lc != len(t2):
+                bad("trim_text_attr_cs", "rle-length", f"(.., {sc}, {ec}) text {len(t2)} bytes, attr runs {la}, cs runs {lc}", sc, ec)
+
+    CALLS["apply_target_encoding"] += 1
+    stats["eval:apply_target_encoding"] += 1
+    try:
+        gb, gruns = U.apply_target_encoding(text)
+        gcs = expand_rle(gruns)
+    except Exception as e:  # noqa: BLE001
+        bad("apply_target_encoding", f"raise:{type(e).__name__}", f"raised {type(e).__name__}: {str(e)[:80]}")
+    else:
+        model = ate_model_bytes(text) if isb else ate_model_str(text, enc, mode)
+        if len(gcs) != len(gb):
+            bad("apply_target_encoding", "run-sum!=len", f"runs cover {len(gcs)}, encoded length {len(gb)}")
+        elif model is not None and gb != model[0]:
+            bad("apply_target_encoding", "encoded-bytes", f"{len(gb)} bytes differ from the model's {len(model[0])}")
+        elif model is not None and gcs != model[1]:
+            bad("apply_target_encoding", "charset-run", "per-byte charsets differ from the model")
+        elif model is not None and not isb and mode != "utf8":
+            stats["eval:apply_target_encoding:dec-glyph"] += sum(1 for c in text if ord(c) in DEC_BY_CP)
+    return out
+
+
+def long_report(ctx, api, enc, mode, cls, kind, n, text, stats, short_keys):
+    """judge one long text; a mismatch that the 8-character text of the same class shows too does not depend on the
+    length and gets len-class=any (one signature per class instead of one per length)"""
+    key = (enc, cls, kind)
+    if key not in short_keys:
+        short_keys[key] = set()
+        for c2, t2 in long_texts(mode, enc, 8):
+            if c2 == cls and isinstance(t2, bytes) == (kind == "bytes"):
+                short_keys[key] |= {(f, kd) for f, kd, _m, _c in judge_long(api, enc, mode, t2, Counter())}
+    seen = set()
+    for f, kd, msg, call in judge_long(api, enc, mode, text, stats):
+        if (f, kd) in seen:
+            continue
+        seen.add((f, kd))
+        lc = "any" if (f, kd) in short_keys[key] else str(n)
+        ctx.violation(
+            f"C11|{mode}|{kind}|{f}|{kd}|long:{cls}|len-class={lc}",
+            f"[{enc}] {msg}",
+            {"kind": "long", "enc": enc, "cls": cls, "type": kind, "n": n, "call": call},
+        )
+
+
+def long_inputs(ctx, api, wide_encs):
+    """False if the budget ended first"""
+    stats = Counter()
+    short_keys: dict = {}
+    idx = 0
+    try:
+        for enc in ["utf-8", *wide_encs[:2], "iso-8859-1"]:
+            mode = W.mode_of_encoding(enc)
+            with Encoding(api, enc):
+                for n in (*LONG_LENGTHS[ctx.tier], *((LONG_LENGTHS_BIG,) if ctx.quick else ())):
+                    for cls, text in long_texts(mode, enc, n):
+                        if ctx.quick and n == LONG_LENGTHS_BIG and cls not in LONG_BIG_CLASSES:
+                            continue
+                        idx += 1
+                        if not ctx.mine(idx):
+                            continue
+                        if not det_more(ctx):
+                            return False
+                        kind = "bytes" if isinstance(text, bytes) else "str"
+                        ctx.count(f"long_inputs:{mode}:{cls}")
+                        ctx.count(f"long_inputs:len={n}")
+                        ctx.case(("long", enc, cls, kind, n))
+                        long_report(ctx, api, enc, mode, cls, kind, n, text, stats, short_keys)
+    finally:
+        for k, v in stats.items():
+            ctx.count(k, v)
+    return True
+
+
 # ------------------------------------------------------------------ encoding histories
 # The active encoding is process-global state reached through set_encoding / set_temporary_encoding calls.  Model:
 # after any history the arithmetic, get_encoding_mode() and get_encoding() are those of the LAST requested name alone
@@ -1164,6 +1505,8 @@ def run(ctx):
             ses.flush()
     if not encoding_histories(ctx, api, ctx.subrng("histories")):
         incomplete.append("encoding-histories")
+    if not long_inputs(ctx, api, wide_encs):
+        incomplete.append("long-inputs")
     phase["texts"] = round(time.process_time(), 2)
     ctx.extra["cpu_seconds_at_end_of_phase_shard0"] = phase
     ctx.extra["every_unicode_scalar_value_judged_under_utf8"] = (not ctx.quick) and "code-point-sweep:utf-8" not in incomplete
@@ -1176,7 +1519,7 @@ def run(ctx):
     rounds = 0
     max_rounds = 0 if os.environ.get("C11_CALIBRATE") else ctx.pick(2_000, 60_000)  # calibration: enumerated phases only
     min_rounds = MIN_RANDOM_ROUNDS[ctx.tier]
-    while (ctx.more(0.97) or (rounds < min_rounds and ctx.elapsed() < 4.0 * ctx.budget + 60)) and rounds < max_rounds:
+    while (ctx.more(0.97) or (rounds < min_rounds and ctx.elapsed() < 4.0 * ctx.budget + 85)) and rounds < max_rounds:
         rounds += 1
         enc = all_encs[rounds % len(all_encs)] if rounds % 3 else "utf-8"
         mode = W.mode_of_encoding(enc)
@@ -1232,6 +1575,19 @@ def replay(ctx, wit):
     warnings.filterwarnings("ignore", category=UnicodeWarning)
     api = Api()
     api.probe_lenient()
+    if wit.get("kind") == "long":
+        enc = wit["enc"]
+        mode = W.mode_of_encoding(enc)
+        stats = Counter()
+        with Encoding(api, enc):
+            for cls, text in long_texts(mode, enc, wit["n"]):
+                kind = "bytes" if isinstance(text, bytes) else "str"
+                if cls != wit["cls"] or kind != wit["type"]:
+                    continue
+                long_report(ctx, api, enc, mode, cls, kind, wit["n"], text, stats, {})
+        for k, v in stats.items():
+            ctx.count(k, v)
+        return
     if wit.get("kind") == "history":
         stats = Counter()
         run_history(ctx, api, wit["ops"], stats)
